@@ -169,6 +169,59 @@ func checkDict(c *explore.Ctx, scope string, idx *int64, seg segment.Segment, wa
 		c.Violate(scope, *idx-1, sigOf("C08", "dictionary", "error: "+errText(msg, err)), errText(msg, err), cas+" field="+field)
 		return
 	}
+	// two live iterators on the one Dictionary, stepped alternately (the second created while the
+	// first is mid-way): each must enumerate the whole dictionary on its own - on the fresh Dictionary
+	// and again after all the iterators of the sweep below have been exhausted on it
+	ok2 := true
+	twoIterators := func() {
+		my := *idx
+		*idx++
+		if !c.Replay || my == c.ReplayIndex {
+			c.Eval()
+			c.R.Distinct++
+			var all []dictEntry
+			for _, t := range wantTerms {
+				all = append(all, dictEntry{t, wantCount[t]})
+			}
+			var g1, g2 []dictEntry
+			msg := explore.Guard(func() {
+				it1 := dict.Iterator(nil, nil, nil)
+				step := func(it segment.DictionaryIterator, out *[]dictEntry) bool {
+					e, err2 := it.Next()
+					if err2 != nil {
+						err = err2
+						return false
+					}
+					if e == nil {
+						return false
+					}
+					*out = append(*out, dictEntry{e.Term(), e.Count()})
+					return len(*out) <= 1000
+				}
+				more1 := step(it1, &g1)
+				it2 := dict.Iterator(nil, nil, nil)
+				more2 := true
+				for more1 || more2 {
+					if more2 {
+						more2 = step(it2, &g2)
+					}
+					if more1 {
+						more1 = step(it1, &g1)
+					}
+				}
+			})
+			if msg != "" || err != nil || fmt.Sprint(g1) != fmt.Sprint(all) || fmt.Sprint(g2) != fmt.Sprint(all) {
+				c.Violate(scope, my, sigOf("C08", "two-iterators", "wrong: "+errText(msg, err)), fmt.Sprintf("two iterators stepped alternately: first %v second %v want %v %s", g1, g2, all, errText(msg, err)), cas+" field="+field)
+				ok2 = false
+				return
+			}
+		}
+	}
+	twoIterators()
+	if !ok2 {
+		return
+	}
+	defer twoIterators()
 	for _, r := range rs {
 		for _, a := range as {
 			my := *idx
